@@ -282,6 +282,8 @@ func buildC04(tier string) *core.Plan {
 				map[string]any{"k": n, "s": "x\n\n\n"}},
 			tmpl{"yaml-quoted-merge-key-is-data", "yaml", fmt.Sprintf("\"<<\": {k: %s}\na: 2\nb: {'<<': 1}\n", ns),
 				map[string]any{"<<": map[string]any{"k": n}, "a": 2, "b": map[string]any{"<<": 1}}},
+			tmpl{"yaml-alias-as-key", "yaml", fmt.Sprintf("x: &k foo\n*k : %s\nm: {*k : 1}\n", ns),
+				map[string]any{"x": "foo", "foo": n, "m": map[string]any{"foo": 1}}},
 			tmpl{"yaml-crlf-stream", "yaml", fmt.Sprintf("a: %s\r\n---\r\nb: %s\r\n---\r\nc: x\r\n", ns, ms),
 				[]any{map[string]any{"a": n}, map[string]any{"b": m}, map[string]any{"c": "x"}}},
 			tmpl{"yaml-separator-with-trailing-blanks", "yaml", fmt.Sprintf("a: %s\n---  \nb: %s\n---\t\nc: x\n", ns, ms),
